@@ -343,6 +343,10 @@ func c13HeaderCBOR(c *core.Case, s *c13Source, pingType string) []byte {
 		hdr["f"] = true
 	}
 	hdr["c"] = c.Uniform("hdr.code", 0, 255)
+	if c.Chance("hdr.code.small", 2, 3) {
+		// the codes in use (repeats of one code from one source within its cooldown matter)
+		hdr["c"] = c.Pick("hdr.code.s", 6)
+	}
 	hdr["h"] = string(s.id.Addr.Hash)
 	hdr["a"] = string(s.id.Addr.Type)
 	hdr["k"] = []byte(s.id.Addr.PublicKey)
@@ -698,6 +702,35 @@ func TestC13Structured(t *testing.T) {
 		w := c13Setup(c)
 		n := c.Int("frames", 50, 300)
 		for i := 0; i < n; i++ {
+			if c.Chance("own-hello", 1, 25) {
+				// The victim itself starts a key setup with its peer; whatever the peer
+				// answers reaches the victim one to three times (the peer is
+				// authenticated, but nothing obliges it to answer only once).
+				vn := w.ms.vn
+				w.V.Rtr.VerifExpireHello(w.P.IP())
+				_, _ = w.V.Rtr.HelloPing.Send(w.P.IP())
+				var answers []*vnet.InFlight
+				for steps := 0; len(vn.Queue) > 0 && steps < 30; steps++ {
+					fl := vn.Drop(0)
+					if fl.To == w.V {
+						answers = append(answers, fl)
+						continue
+					}
+					if r := vn.Inject(fl.To, fl.Link, fl.Data); r.Panicked {
+						c.Fatalf("hello of the victim panicked %s: %v", fl.To.Name, vn.Panics)
+					}
+				}
+				copies := c.Int("own-hello.copies", 1, 3)
+				for _, fl := range answers {
+					for k := 0; k < copies; k++ {
+						if r := vn.Inject(w.V, fl.Link, fl.Data); r.Panicked {
+							c.Fatalf("copy %d of the peer's answer to the victim's own hello panicked a worker of the victim: %v", k+1, vn.Panics)
+						}
+					}
+				}
+				vn.Queue = nil
+				c.Class("structured/own-hello-answered-x" + fmt.Sprint(copies))
+			}
 			data, desc := w.build(c)
 			if data == nil {
 				continue
